@@ -152,3 +152,119 @@ func retainCheck(w *mon.W, key, what string, fs ...func() uint64) bool {
 	w.State["retain/"+key] = cur
 	return true
 }
+
+// ---- hostile-but-legitimate caller ---------------------------------------------------------------
+//
+// (1) dirty spare capacity: slice arguments are handed to the library as views of a larger array
+//     whose cells beyond len (and before the view) hold poison. The memory beyond len is not part of
+//     the argument: results must not depend on it and it must not be written (guard).
+// (2) scribbling: a slice the library returned belongs to the caller; once a driver has finished
+//     checking it, it overwrites it up to its capacity. If the library handed out memory it still
+//     uses (a shared constant, a pooled or cached buffer), later results go wrong and the ordinary
+//     oracle reports them.
+
+const poisonW = uint64(0xdeadbeefdeadbeef)
+const poisonI = int32(0x5a5a5a5a)
+const poisonB = byte(0xa5)
+
+func dirtyW(ws []uint64) ([]uint64, func() bool) {
+	n := len(ws)
+	big := make([]uint64, n+5)
+	for i := range big {
+		big[i] = poisonW
+	}
+	copy(big[2:], ws)
+	return big[2 : 2+n : n+4], func() bool {
+		return big[0] == poisonW && big[1] == poisonW && big[2+n] == poisonW && big[3+n] == poisonW && big[4+n] == poisonW
+	}
+}
+
+func dirtyI32(ws []int32) ([]int32, func() bool) {
+	n := len(ws)
+	big := make([]int32, n+6)
+	for i := range big {
+		big[i] = poisonI
+	}
+	copy(big[2:], ws)
+	return big[2 : 2+n : n+5], func() bool {
+		for i, x := range big {
+			if (i < 2 || i >= 2+n) && x != poisonI {
+				return false
+			}
+		}
+		return true
+	}
+}
+
+func dirtyB(b []byte) ([]byte, func() bool) {
+	n := len(b)
+	big := make([]byte, n+12)
+	for i := range big {
+		big[i] = poisonB
+	}
+	copy(big[4:], b)
+	return big[4 : 4+n : n+11], func() bool {
+		for i, x := range big {
+			if (i < 4 || i >= 4+n) && x != poisonB {
+				return false
+			}
+		}
+		return true
+	}
+}
+
+const poisonS = "\xff\xfe poison beyond len \x00"
+
+func dirtyStrs(l []string) ([]string, func() bool) {
+	n := len(l)
+	big := make([]string, n+4)
+	for i := range big {
+		big[i] = poisonS
+	}
+	copy(big[1:], l)
+	return big[1 : 1+n : n+3], func() bool {
+		return big[0] == poisonS && big[1+n] == poisonS && big[2+n] == poisonS && big[3+n] == poisonS
+	}
+}
+
+func scribbleW(ws []uint64) {
+	ws = ws[:cap(ws)]
+	for i := range ws {
+		ws[i] = ^ws[i] ^ 0x1357924680acebdf
+	}
+}
+
+func scribbleI32(ws []int32) {
+	ws = ws[:cap(ws)]
+	for i := range ws {
+		ws[i] = ^ws[i] ^ 0x13579bdf
+	}
+}
+
+func scribbleB(b []byte) {
+	b = b[:cap(b)]
+	for i := range b {
+		b[i] = ^b[i] ^ 0x3c
+	}
+}
+
+// argW is dirtyW on a per-worker buffer that is reused from case to case: consecutive bitmaps of
+// one worker live at the SAME address (and often have the same length) with different content, as
+// they do for a caller that updates a bitmap in place - a result cached by the identity of its
+// argument goes stale and the ordinary oracle reports it.
+func argW(w *mon.W, ws []uint64) ([]uint64, func() bool) {
+	n := len(ws)
+	buf, _ := w.State["argW"].([]uint64)
+	if cap(buf) < n+5 {
+		buf = make([]uint64, 2*n+64)
+		w.State["argW"] = buf
+	}
+	big := buf[:n+5]
+	for i := range big {
+		big[i] = poisonW
+	}
+	copy(big[2:], ws)
+	return big[2 : 2+n : n+4], func() bool {
+		return big[0] == poisonW && big[1] == poisonW && big[2+n] == poisonW && big[3+n] == poisonW && big[4+n] == poisonW
+	}
+}
